@@ -56,12 +56,12 @@ CLAIMS = {
  "C09": ("The property in full is a THEOREM (C09_readd): for EVERY source sequence h that infers and EVERY d in h (any position, no side condition) there is one shape m1 with from_sources(h+[d]*(k+1)) = m1 for all k — the shape stops changing after at most one re-addition — and m1 admits exactly the documents from_sources(h) admits (Sem.mem); proved via an absorption invariant preserved by merger. Corollaries in the property's wording (C09_readd_meaning, C09_readd_stable, C09_readd_ok), text-level C09_text_readd, tightness witness (C09_readd_changes_once), and: when the merged shape is OneOf-free nothing changes at all. The pairwise add_twice for ARBITRARY accumulated shapes keeps the hypothesis no_null_array, with a witness that it is needed there. Correspondence + oracle: thousands of histories with d at random positions; an exhaustive model/implementation search over 16M histories found no counterexample (NOTES-c09.md).", "6/C09"),
  "C10": ("Six theorems prove reflexivity, optional widening, null-in-optional and the similar laws for ALL well-formed shapes; model tied to /repo by "
          "all 103041 level-1 pairs plus random deep related pairs; statements re-evaluated on the implementation's own answers.", "6/C10"),
- "C13": ("Theorems (Properties/C13.v): for EVERY shape in the decidable class good_names (emitted definition names pairwise distinct, snake-cased member names legal and distinct, variant names distinct, no nested optional array, tuples <= 12 wide) the generated items form a well-formed module "
-         "(every referenced type is standard at its arity or defined exactly once; names legal) - proved by structural induction over all shapes; wf_module = header_ok under that class. Seven `_refuted` theorems exhibit the defect classes of the unchanged code "
-         "(F12 header: forall s, wf_module = false; F13 Optional<Vec; F15 repeated sub-shape; KF4 collision; illegal / clashing member names; variant clash; 13-tuple); C13_gen_wf_after_F15 proves the repaired (deduplicating) emission needs only the local conditions. Correspondence: render hook and compile_json file bytes byte-for-byte on level-1, corner, random and inferred shapes; "
+ "C13": ("Theorems (Properties/C13.v): for EVERY shape in the decidable class good_names (emitted definition names pairwise distinct, snake-cased member names legal and distinct, variant names distinct, tuples <= 12 wide) the generated items form a well-formed module "
+         "(every referenced type is standard at its arity or defined exactly once; names legal) - proved by structural induction over all shapes; wf_module = header_ok under that class. C13_header_ok: the header written since fix F12 can be include!d in a module. Five `_refuted` theorems exhibit the remaining defect classes of the code "
+         "(F15 repeated sub-shape; KF4 collision; illegal / clashing member names; variant clash; 13-tuple; the F12 header and F13 Optional<Vec classes are repaired in /repo and their witnesses became positive theorems); C13_gen_wf_after_F15 proves the repaired (deduplicating) emission needs only the local conditions. Correspondence: render hook and compile_json file bytes byte-for-byte on level-1, corner, random and inferred shapes; "
          "oracle: independent name-resolution check = extracted wf_items on the parsed REAL text = model prediction, every case; thorough: real rustc per case and one-crate batches agree with wf_items / wf_module.", "6/C13"),
- "C14": ("Theorem C14_decode_gen_partial: for EVERY shape in the decidable class decodable, reading the generated items back (decode) yields the shape with member names snake-cased (erase) - structural induction, no bounds; four `_refuted` witnesses "
-         "(root flag dropped, Optional<Vec, name collision, 1-tuples). Correspondence: render byte-for-byte; parsed real text = model item list; oracle: extracted decode on the implementation's real output vs erase(shape), classified by the same decodable predicate.", "6/C14"),
+ "C14": ("Theorem C14_decode_gen_partial: for EVERY shape in the decidable class decodable, reading the generated items back (decode) yields the shape with member names snake-cased (erase) - structural induction, no bounds; three `_refuted` witnesses "
+         "(root flag dropped, name collision, 1-tuples) and C14_opt_array_decodes (nested optional arrays decode since fix F13). Correspondence: render byte-for-byte; parsed real text = model item list; oracle: extracted decode on the implementation's real output vs erase(shape), classified by the same decodable predicate.", "6/C14"),
  "C15": ("Theorem C15_deser_sources_partial (structural induction over ALL shapes, no bounds): under the model of serde's derived (de)serialization for exactly the generated item forms, every member document (Sem.mem) without a repeated member name of every shape in the decidable class "
          "c15_class (good_names, decodable, OneOf-free, member names snake-stable, no Null-typed member, no empty object) deserializes into the generated root type and re-serializes to an approx-equal document (kinds; explicit nulls for absent optional members). Six `_refuted` theorems exhibit the classes "
          "outside it (externally tagged enums, missing rename, Null-typed member, dropped root Option, empty object = unit struct, duplicate member). The serde model is an external library's behaviour: validated in the thorough tier by compiling and RUNNING the generated code on the sources and on foreign documents "
@@ -76,7 +76,7 @@ PARTIAL = {
  "C07": "The tie model <-> implementation is the executed correspondence; names spelled with an escape re-read as the decoded name (keys_ok excludes them by definition). ",
  "C12": "Partial by nature: allocator, stack and wall-clock are runtime; the theorems bound call counts, allocations are measured.", "C03": "Partial: the theorem covers exactly the complement of the known class KF2 (merged shape OneOf-free); inside KF2 the property is refuted by witness.", "C13": "Partial: 'wf_module implies rustc accepts' is validated on rustc batches, not proved; codegen / convert_case / checksum are modelled (printable-ASCII member names) and validated by correspondence. ",
  "C14": "Partial: the item parser applied to the real text is Python (validated against the model's item list on every case). ",
- "C15": "Partial: serde_derive / serde_json are external - modelled (Model/Gen.v deser/reser) and validated by compile-and-run batches in the thorough tier; modules are judged with the header defect F12 neutralised (as written none compiles). ",
+ "C15": "Partial: serde_derive / serde_json are external - modelled (Model/Gen.v deser/reser) and validated by compile-and-run batches in the thorough tier; modules are judged by their items (the header is C13's business; the defect F12 is repaired). ",
  "C16": "Partial: determinism of the real code is a run-time observation (two runs, two processes); the text-level behaviour of json_shape 0.5.1 enters compile_json_m as a function argument. ",
 }
 
